@@ -155,6 +155,25 @@ def parseReattachObs : List String → Option ReattachObs
     | _ => none
   | _ => none
 
+/-! xnode dl <ms> via <m|p> gap <ms> down <k> <hex>*k up <l> <hex>*l
+    obs: tt <hex> ts <hex> teof <b> seof <b> -/
+def parseXnode : List String → Option (List Bytes × List Bytes)
+  | "dl" :: _ :: "via" :: _ :: "gap" :: _ :: "down" :: k :: ts => do
+    let k ← k.toNat?
+    let (down, ts) ← parseHexes k ts
+    match ts with
+    | "up" :: l :: ts => do
+      let l ← l.toNat?
+      let (up, _) ← parseHexes l ts
+      pure (down, up)
+    | _ => none
+  | _ => none
+
+def parseXnodeObs : List String → Option XnodeObs
+  | ["tt", tt, "ts", ts, "teof", a, "seof", b] => do
+    pure ⟨← bytesOfHex tt, ← bytesOfHex ts, ← bit a, ← bit b⟩
+  | _ => none
+
 def b01 (b : Bool) : String := if b then "1" else "0"
 
 def runModel (ts : List String) : String :=
@@ -164,6 +183,13 @@ def runModel (ts : List String) : String :=
     | some c =>
       let o := reattachObs c.lim c.gens c.tgt
       s!"tt {hexOfBytes o.toTarget} ret {b01 o.returned} sc {b01 o.curSrcClosed} tc {b01 o.tgtClosed} rem {b01 o.removed} sent {o.sent}"
+    | none => "bad-case"
+  | "xnode" :: rest =>
+    match parseXnode rest with
+    | some (down, up) =>
+      -- the segmentation by the cross-node connection does not show in the observation (`C02_xnode_main`)
+      let o := xnodeObs down up (fun d => [d]) (fun d => [d])
+      s!"tt {hexOfBytes o.toTarget} ts {hexOfBytes o.toSource} teof {b01 o.tgtEof} seof {b01 o.srcEof}"
     | none => "bad-case"
   | "copy" :: rest =>
     match parseCopy rest with
@@ -182,6 +208,10 @@ def runHolds (caseToks obsToks : List String) : String :=
   | "reattach" :: rest =>
     match parseReattach rest, parseReattachObs obsToks with
     | some c, some o => boolStr (holdsReattach c.gens c.tgt (pausePoints c.lim c.gens [] {}) o)
+    | _, _ => "false"
+  | "xnode" :: rest =>
+    match parseXnode rest, parseXnodeObs obsToks with
+    | some (down, up), some o => boolStr (holdsXnode down up o)
     | _, _ => "false"
   | "closerace" :: _ =>
     -- the bridge is closed while its target attaches: it must end and be forgotten (`C02_lifecycle`: a closed
